@@ -592,3 +592,26 @@ func (s *Server) AbortOnlyByVanishedKeys(se *Session) bool {
 	}
 	return aba
 }
+
+// TryBlocking applies the non-blocking form of a blocking list command (what the command does when
+// it is first issued, and again each time the blocked client is woken). served=false means nothing
+// was available and the model is unchanged.
+func (s *Server) TryBlocking(all []*Session, se *Session, argv []string, tm Time) (exp Exp, served bool) {
+	forms, ok := blockingAsNonBlocking(argv)
+	if !ok {
+		return arityErr(), true
+	}
+	name := up(argv[0])
+	for _, f := range forms {
+		probe := s.DBs[se.DB].Clone().Exec(f, tm)
+		if probe.Kind == EVal && probe.V.K == kit.KNil {
+			continue
+		}
+		e := s.runData(all, se.DB, f, tm)
+		if (name == "BLPOP" || name == "BRPOP") && e.Kind == EVal && e.V.K == kit.KBulk {
+			return Val(kit.Arr(kit.Bulk(f[1]), e.V)), true
+		}
+		return e, true
+	}
+	return NilE(), false
+}
